@@ -5,5 +5,4 @@ import "golang.org/x/tools/go/ssa"
 func ruleC19Helpers(w *World, r *Report) {}
 func ruleC17R2(w *World, r *Report)      {}
 
-func ruleC03R4(w *World, r *Report) {}
 func (w *World) deadPanic(p *ssa.Panic) (Status, string) { return Undecided, "not implemented" }
